@@ -36,7 +36,7 @@ def load_guarded(gtirb, data, seconds=10):
         signal.signal(signal.SIGALRM, old)
 
 
-def coherence_record(gtirb, ir):
+def coherence_record(gtirb, ir, try_save=True):
     """walk a returned IR through the public API; fresh names n0, n1, ...; see CoherentJudge.tla"""
     g = gtirb
     names = {}
@@ -115,12 +115,13 @@ def coherence_record(gtirb, ir):
     for e in ir.cfg:
         ref("edge.src", irn, e.source)
         ref("edge.tgt", irn, e.target)
-    try:
-        buf = io.BytesIO()
-        ir.save_protobuf_file(buf)
-        saves = True
-    except Exception:
-        saves = False
+    saves = True
+    if try_save:
+        try:
+            buf = io.BytesIO()
+            ir.save_protobuf_file(buf)
+        except Exception:
+            saves = False
     return {"outcome": "ir", "head": [71, 84, 73, 82, 66, 0, 0, 0], "pv": 0, "version": ir.version,
             "kind": kind, "kids": kids, "par": par, "cache": cache, "uuids_distinct": len(set(uu)) == len(uu),
             "foreign_hits": foreign, "refs": refs,
